@@ -287,6 +287,8 @@ func generate() {
 		postpermProduct()
 	}
 
+	friendHistories(th)
+
 	// cool-down histories
 	for _, nu := range []int32{0, 30, 31, 1000, 1001, 2001, 4001} {
 		k := 13
@@ -450,6 +452,88 @@ func postpermProduct() {
 				}
 			}
 		}
+	}
+}
+
+// friendHistories: histories on the friend list of the written board (restricted-post, or hidden).  A list is
+// loaded, the user writes, the list changes (shrinks, grows, is reordered, loses the user from the middle or the end,
+// is emptied, is removed), is loaded again — explicitly (HbflReload after an edit), by expiry (the reload inside
+// IsHiddenBoardFriend), or not at all — and the user writes again.
+func friendHistories(th bool) {
+	first := []string{"u", "c,u", "u,c", "c,p,u", "c,u,p", "c,p,k,u", "g,u", "z,G,e,U", "c*99,u", "c*100,u", "c*99,g,z,u", "-", "c"}
+	second := []string{"c", "-", "p", "c,p", "u", "c,u", "p,c,k", "c,p,k", "g", "c*100", "u,c*100"}
+	reloads := []string{"L", "WX", "W", "D"}
+	for _, op := range opList {
+		for _, kind := range []string{"restricted", "hidden"} {
+			emitF := func(steps string) { execLine("reset friends " + op + " " + kind + " " + steps) }
+			emitF("P")
+			emitF("X/P")
+			emitF("D/P")
+			for _, l1 := range first {
+				emitF("L:" + l1 + "/P")
+				emitF("W:" + l1 + "/P")
+				emitF("W:" + l1 + "/X/P/P")
+			}
+			n := 0
+			for _, l1 := range first {
+				for _, l2 := range second {
+					for _, rl := range reloads {
+						n++
+						if !th && (kind == "hidden" || op == "editpost") && run.R.Intn(4) != 0 {
+							continue
+						}
+						var mid string
+						switch rl {
+						case "L":
+							mid = "L:" + l2
+						case "WX":
+							mid = "W:" + l2 + "/X"
+						case "W":
+							mid = "W:" + l2
+						case "D":
+							if l2 != "c" {
+								continue
+							}
+							mid = "D"
+						}
+						emitF("L:" + l1 + "/P/" + mid + "/P")
+					}
+				}
+			}
+			// longer random histories
+			nr := 12
+			if th {
+				nr = 150
+			}
+			pool := append(append([]string{}, first...), second...)
+			for j := 0; j < nr; j++ {
+				k := 3 + run.R.Intn(8)
+				var st []string
+				for len(st) < k {
+					switch run.R.Intn(7) {
+					case 0, 1:
+						st = append(st, "L:"+pool[run.R.Intn(len(pool))])
+					case 2:
+						st = append(st, "W:"+pool[run.R.Intn(len(pool))])
+					case 3:
+						st = append(st, "X")
+					case 4:
+						if run.R.Intn(3) == 0 {
+							st = append(st, "D")
+						}
+					default:
+						st = append(st, "P")
+					}
+				}
+				st = append(st, "P")
+				emitF(strings.Join(st, "/"))
+			}
+		}
+	}
+	for _, l := range []string{"reset friends newpost restricted", "reset friends newpost open L:u/P", "reset friends newpost restricted L:u",
+		"reset friends newpost restricted L:q/P", "reset friends newpost restricted L:u*0/P", "reset friends newpost restricted L:u*121/P",
+		"reset friends nosuch restricted P", "reset friends newpost restricted L:u:c/P", "reset friends newpost restricted P//P"} {
+		execLine(l)
 	}
 }
 
